@@ -14,7 +14,10 @@ import (
 //   - Unlock/RUnlock of a mutex held in that mode;
 //   - a field declared "guarded T.f by mu" is read holding mu (R or W) and written - or handed to a mutating
 //     method - holding mu for writing; objects still under construction (allocated in this activation) are exempt;
-//   - every lock taken by the function under proof is released on every return path.
+//   - every lock taken by the function under proof is released on every return path;
+//   - atomic update: a guarded field is not written in one critical section on the strength of a value read in an
+//     EARLIER critical section (lock released in between) without being read again in the writing section - the
+//     check-then-act / snapshot-then-publish pattern that loses concurrent updates.
 
 type guardInfo struct {
 	mutexIdx int
@@ -106,9 +109,11 @@ func (ex *Exec) lockOp(fr *Frame, st *State, key string, args []Val, pos token.P
 	case "Lock":
 		ex.lockObl(st, "acquire@"+name, "Lock() of a mutex this call chain does not already hold", cur == 0, pos)
 		st.setLock(k, 2)
+		st.setSec("#"+k, st.secs["#"+k]+1)
 	case "RLock":
 		ex.lockObl(st, "acquire@"+name, "RLock() of a mutex this call chain does not already hold", cur == 0, pos)
 		st.setLock(k, 1)
+		st.setSec("#"+k, st.secs["#"+k]+1)
 	case "Unlock":
 		ex.lockObl(st, "release@"+name, "Unlock() of a mutex held for writing", cur == 2, pos)
 		st.setLock(k, 0)
@@ -169,6 +174,74 @@ func (ex *Exec) guardedAccess(fr *Frame, st *State, p *Ptr, need int, how string
 		mode = "write"
 	}
 	ex.lockObl(st, mode+"@"+fname, fmt.Sprintf("%s of guarded field %s (%s) holding its mutex %s", mode, fname, how, map[int]string{1: "for reading or writing", 2: "for writing"}[need]), held >= need, pos)
+	// atomic update
+	cur := st.secs["#"+k]
+	fk := k + "|" + fname
+	if need == 1 {
+		st.setSec(fk, cur)
+	} else if held >= 2 {
+		last, seen := st.secs[fk]
+		ex.lockObl(st, "atomic@"+fname, fmt.Sprintf("write of guarded field %s in a critical section that has read it itself, or no earlier section of this call has (no snapshot-then-publish across a released lock)", fname), !seen || last == cur, pos)
+		st.setSec(fk, cur)
+	}
+}
+
+func (st *State) setSec(k string, v int) {
+	n := make(map[string]int, len(st.secs)+1)
+	for a, b := range st.secs {
+		n[a] = b
+	}
+	n[k] = v
+	st.secs = n
+}
+
+// calleeSections: a method of the same object that takes the object's mutex itself and reads guarded fields has, from
+// the caller's point of view, run a critical section of its own in which those fields were read.
+func (ex *Exec) calleeSections(fr *Frame, st *State, fn *ssa.Function, args []Val) {
+	if !ex.lockChecks() || fn == nil || len(args) == 0 || fn.Signature.Recv() == nil || len(fn.Blocks) == 0 {
+		return
+	}
+	p, ok := args[0].(*Ptr)
+	if !ok || p.Ref == nil {
+		return
+	}
+	gi := ex.guardFor(p.Root)
+	if gi == nil || gi.mutexIdx < 0 {
+		return
+	}
+	k := ex.mutexKey(st, &Ptr{Ref: p.Ref, Root: p.Root, Path: []int{gi.mutexIdx}})
+	if st.locks[k] != 0 {
+		return // the caller holds the mutex: the callee runs inside the caller's section
+	}
+	locks := false
+	reads := map[string]bool{}
+	for _, b := range fn.Blocks {
+		for _, ins := range b.Instrs {
+			switch x := ins.(type) {
+			case *ssa.FieldAddr:
+				if !types.Identical(derefType(x.X.Type()), p.Root) {
+					continue
+				}
+				if fname, g := gi.fields[x.Field]; g {
+					reads[fname] = true
+				}
+			case ssa.CallInstruction:
+				if sc := x.Common().StaticCallee(); sc != nil {
+					if op, ok := isMutexMethod(funcKey(sc)); ok && (op == "Lock" || op == "RLock") {
+						locks = true
+					}
+				}
+			}
+		}
+	}
+	if !locks || len(reads) == 0 {
+		return
+	}
+	cur := st.secs["#"+k] + 1
+	st.setSec("#"+k, cur)
+	for f := range reads {
+		st.setSec(k+"|"+f, cur)
+	}
 }
 
 var readOnlyMethods = map[string]bool{"String": true, "Len": true, "Cap": true, "Load": true, "IsClosed": true}
